@@ -30,7 +30,7 @@ for w in (1, 2, 3, 4, 5):
     c = sum(1 for r in rs if r["verdict"].startswith("CAUGHT") and not r.get("harness_extended_before_first_evaluation"))
     p = sum(1 for r in rs if r.get("harness_extended_before_first_evaluation"))
     out.append("Wave %d: %d changes, caught outright %d, caught after a pre-emptive extension %d, missed %d." % (w, len(rs), c, p, len(rs) - c - p))
-out.append("\n## Full re-evaluation on the final tree (%s)\n" % time.strftime("%Y-%m-%d"))
+out.append("\n## Latest evaluation per change (waves 1-4: full re-evaluation of all 160 on the tree as it stood after wave 4, 2026-09-24 05:10-08:40 UTC; wave 5: its own evaluations, 10:00-10:55 UTC)\n")
 out.append("| seeded change | property | tier | verdict | how |\n|---|---|---|---|---|")
 for sid in sorted(final):
     out.append("| %s | %s | %s | %s | %s |" % ((sid,) + final[sid]))
